@@ -1,6 +1,7 @@
 (* C19 - containers behave as their abstract data types.  Statements only; proofs are in Dsa/*_proofs.v *)
 From CAres.Dsa Require Import Array Array_proofs.
 From CAres.Gen Require Import Consts.
+From Coq Require Import Permutation Sorted.
 
 (* ===================== array (src/lib/dsa/ares_array.c) ===================== *)
 
@@ -9,9 +10,11 @@ From CAres.Gen Require Import Consts.
    removed members, reads, lengths), ends with the list as its members, and never runs into C
    undefined behaviour.  "Keeps sequence order for inserts and removals at any index and stays
    usable after any removal pattern". *)
-Theorem C19_array_run_refines : forall ops : list arr_op,
-  let '(a', rs) := arr_run arr_create (map (fun o => (true, o)) ops) in
-  let '(l', rs') := aspec_run [] ops in
+Theorem C19_array_run_refines : forall (qsort : list Z -> list Z),
+  (forall l, Permutation (qsort l) l) ->      (* the C library's qsort permutes its input *)
+  forall ops : list arr_op,
+  let '(a', rs) := arr_run qsort arr_create (map (fun o => (true, o)) ops) in
+  let '(l', rs') := aspec_run qsort [] ops in
   rs = rs' /\ arr_abs a' = l' /\ ~ In RUB rs.
 Proof. exact arr_run_refines. Qed.
 Print Assumptions C19_array_run_refines.
@@ -19,11 +22,26 @@ Print Assumptions C19_array_run_refines.
 (* With an allocator that may refuse (one answer per call): the only deviation from the list is
    an in-range insert that reports ARES_ENOMEM and changes nothing, and only when the allocator
    refused.  (Container-level half of C14 for the array.) *)
-Theorem C19_array_run_alloc_refines : forall ops : list (bool * arr_op),
-  let '(a', rs) := arr_run arr_create ops in
-  aspec_trace [] ops rs (arr_abs a') /\ ~ In RUB rs.
+Theorem C19_array_run_alloc_refines : forall (qsort : list Z -> list Z),
+  (forall l, Permutation (qsort l) l) ->
+  forall ops : list (bool * arr_op),
+  let '(a', rs) := arr_run qsort arr_create ops in
+  aspec_trace qsort [] ops rs (arr_abs a') /\ ~ In RUB rs.
 Proof. exact arr_run_alloc_refines. Qed.
 Print Assumptions C19_array_run_alloc_refines.
+
+(* ares_array_sort: qsort is applied to exactly the members and the result stays in place; with
+   a qsort that sorts, the members end up sorted by cmp and are the same multiset. *)
+Theorem C19_array_sort : forall (qsort : list Z -> list Z) (cmp : Z -> Z -> Z),
+  (forall l, Permutation (qsort l) l) ->
+  (forall l, Sorted (fun x y => (cmp x y <= 0)%Z) (qsort l)) ->
+  forall a, arr_inv_full a ->
+  exists a', arr_sort qsort a = Ok a' /\ arr_inv_full a'
+             /\ arr_abs a' = qsort (arr_abs a)
+             /\ Sorted (fun x y => (cmp x y <= 0)%Z) (arr_abs a')
+             /\ Permutation (arr_abs a') (arr_abs a).
+Proof. exact (fun qsort cmp Hp => arr_sort_full qsort Hp cmp). Qed.
+Print Assumptions C19_array_sort.
 
 (* Per operation, on any state satisfying the invariant (established by create, preserved). *)
 Theorem C19_array_insert : forall ok a idx v,
@@ -59,8 +77,10 @@ Proof. exact arr_at_refines. Qed.
 Print Assumptions C19_array_at_refines.
 
 (* ares_array_finish after any sequence of calls hands out exactly the list, in order. *)
-Theorem C19_array_run_finish : forall ops : list arr_op,
-  arr_finish (fst (arr_run arr_create (map (fun o => (true, o)) ops))) = Ok (fst (aspec_run [] ops)).
+Theorem C19_array_run_finish : forall (qsort : list Z -> list Z),
+  (forall l, Permutation (qsort l) l) ->
+  forall ops : list arr_op,
+  arr_finish (fst (arr_run qsort arr_create (map (fun o => (true, o)) ops))) = Ok (fst (aspec_run qsort [] ops)).
 Proof. exact arr_run_finish. Qed.
 Print Assumptions C19_array_run_finish.
 
